@@ -37,12 +37,30 @@ def reset(names):
     seq.clear()
     tasks.clear()
     shared.clear()
+    shared_s.clear()
+    funcs.clear()
+    facs.clear()
     ctx_names[:] = list(names)
 
 
-def share(ci, func):
-    """a script/module publishes its helper so that code of another global context can call it"""
+shared_s = {}     # ctx id -> the sleeping helper `hs` of that context
+funcs = {}        # tid -> pyscript function to be started with task.create()
+facs = {}         # tid -> factory (defined in the task's context) that makes the task's trigger closure
+
+
+def share(ci, func, sleeper=None):
+    """a script/module publishes its helpers so that code of another global context can call them"""
     shared[ci] = func
+    if sleeper is not None:
+        shared_s[ci] = sleeper
+
+
+def reg_func(tid, func):
+    funcs[tid] = func
+
+
+def reg_fac(tid, fac):
+    facs[tid] = fac
 
 
 def _tid(task):
